@@ -1,9 +1,13 @@
 #!/bin/sh
-# builds ocaml/driver from coq/model.ml(i) + the hand-written driver sources
+# build.sh [area]  — builds ocaml/driver_<area> from coq/model_<area>.ml(i) + driver.ml + h_<area>.ml + main.ml
 set -e
+area=${1:-base}
 cd "$(dirname "$0")"
-mkdir -p _build
-cp ../coq/model.ml ../coq/model.mli driver.ml handlers.ml main.ml _build/
-cd _build
-ocamlfind ocamlopt -O3 -w -a model.mli model.ml driver.ml handlers.ml main.ml -o ../driver 2>/dev/null || \
-ocamlfind ocamlopt -w -a model.mli model.ml driver.ml handlers.ml main.ml -o ../driver
+b=_build_$area
+rm -rf $b; mkdir -p $b
+cp ../coq/model_$area.ml $b/model.ml; cp ../coq/model_$area.mli $b/model.mli
+cp driver.ml main.ml $b/; cp h_$area.ml $b/handlers.ml
+cd $b
+ocamlfind ocamlopt -O3 -w -a model.mli model.ml driver.ml handlers.ml main.ml -o ../driver_$area.tmp 2>/dev/null || \
+ocamlfind ocamlopt -w -a model.mli model.ml driver.ml handlers.ml main.ml -o ../driver_$area.tmp
+mv ../driver_$area.tmp ../driver_$area
